@@ -42,6 +42,8 @@ func runC17(c *Ctx) {
 	lockPairing(c)
 	noLockReentry(c, nil)
 	lazyStateInitialisedFirst(c)
+	oneRegistryLookupPerOperation(c)
+	writerTouchesOnlyCallersFile(c)
 	singleSection(c)
 	driverStateRule(c, "driver-keeps-no-state", driverMethods, o)
 	poolDisciplineRule(c)
@@ -523,6 +525,51 @@ func runC18(c *Ctx) {
 		} else {
 			c.ok("per-call-no-argument-write", name, c.P.Pos(fn.Pos()), "the per-call options argument is only read")
 		}
+	}
+	// … nor memory reachable from a package-level variable: a call that lays its options over the
+	// shared defaults changes the defaults of every other instance and call
+	c.rule("per-call-no-default-write", "no statement of a *WithOptions method stores through a package-level variable or through a local bound to a reference taken from one (*ro = … with ro := defaultOptions.RenderOptions)")
+	for _, name := range perCall {
+		d := c.decl("per-call-no-default-write", name)
+		if d == nil {
+			continue
+		}
+		defs := singleDefs(d.pkg, d.fd.Body)
+		isPkgVar := func(o types.Object) bool {
+			v, ok := o.(*types.Var)
+			return ok && v.Pkg() != nil && v.Parent() == v.Pkg().Scope()
+		}
+		bad := ""
+		var pos token.Pos
+		ast.Inspect(d.fd.Body, func(x ast.Node) bool {
+			as, ok := x.(*ast.AssignStmt)
+			if !ok {
+				return true
+			}
+			for _, l := range as.Lhs {
+				switch l.(type) {
+				case *ast.StarExpr, *ast.SelectorExpr, *ast.IndexExpr:
+				default:
+					continue
+				}
+				bo := baseObj(d, l)
+				if bo == nil {
+					continue
+				}
+				if isPkgVar(bo) {
+					bad, pos = types.ExprString(l)+" is rooted at the package-level variable "+bo.Name(), as.Pos()
+					continue
+				}
+				if def, has := defs[bo]; has {
+					if ro := baseObj(d, def); ro != nil && isPkgVar(ro) && isRefType(d.pkg.TypesInfo.TypeOf(def)) {
+						bad, pos = types.ExprString(l)+" writes through "+bo.Name()+", which is "+types.ExprString(def), as.Pos()
+					}
+				}
+			}
+			return true
+		})
+		c.check(bad == "", "per-call-no-default-write", name, c.P.Pos(pos), "no store through the package-level defaults",
+			fmt.Sprintf("%s: %s — the per-call options are written into the library's shared defaults, so they stay in force for later calls and for every other instance", name, bad))
 	}
 	// D4
 	for _, name := range perCall {
